@@ -501,6 +501,15 @@ impl<'a> VisitMut for MatchesPass<'a> {
 struct UnreachablePass<'a> { rules: &'a mut Rules }
 impl<'a> VisitMut for UnreachablePass<'a> {
     fn visit_expr_mut(&mut self, e: &mut Expr) {
+        // R24: `async move { .. }.boxed_local()` (a future created to be stored, not awaited here) -> `vx_boxed_future()`:
+        // the body of the async block is NOT extracted (it runs later, outside this function)
+        if let Expr::MethodCall(mc) = e {
+            if (mc.method == "boxed_local" || mc.method == "boxed") && matches!(&*mc.receiver, Expr::Async(_)) {
+                self.rules.hit("R24.stored_async_block_not_extracted");
+                *e = parse_quote!(vx_boxed_future());
+                return;
+            }
+        }
         // R22: `format!(..)` -> `vx_fmt()`: an unspecified String (message texts are not modelled)
         if let Expr::Macro(m) = e {
             if macro_name(&m.mac.path) == "format" {
